@@ -79,7 +79,8 @@ where
         false => squares + 1,
         true => squares + 2,
     };
-    let potential = (u_nbrs.len() - degm) + (w_nbrs.len() - degm) + squares;
+    let potential =
+        u_nbrs.len().saturating_sub(degm) + w_nbrs.len().saturating_sub(degm) + squares;
     (squares, potential)
 }
 
